@@ -19,10 +19,11 @@ RULE = (
     "NOT_STARTED->RUNNING row the join predicate is evaluated on the durable upstream statuses at that row's sequence "
     "number. Non-trivial = a stage start with >=1 upstream; distinct = (join type, sorted upstream status vector, "
     "was an injected StartStage pending). The same monitor runs over whole workflows executed by 2-4 worker threads "
-    "interleaved at SQL-statement granularity (random / PCT) while a further thread pushes stray StartStage messages."
+    "interleaved at SQL-statement granularity (random / PCT) while a further thread pushes stray StartStage messages; and over StartStage x JumpToStage handler pairs (the jump "
+    "re-arms the stage being started or its upstreams) under every schedule with <= 2 preemptions (sampled)."
 )
 ASSUMPTIONS = ["SQLite backend", "jump targets are exempt exactly when a JumpToStage naming them re-armed them in the same commit group"]
-MIN_OBS = {"starts_checked": {"quick": 2000, "thorough": 20000}, "injected_start_messages": {"quick": 500, "thorough": 5000}, "interleaved_runs": {"quick": 60, "thorough": 800}}
+MIN_OBS = {"starts_checked": {"quick": 2000, "thorough": 20000}, "injected_start_messages": {"quick": 500, "thorough": 5000}, "interleaved_runs": {"quick": 60, "thorough": 800}, "start_x_jump_schedules_with_switch": {"quick": 100, "thorough": 1500}}
 TIMEOUT = {"quick": 600, "thorough": 3000}
 
 
@@ -44,6 +45,9 @@ def gen_cases(tier: str, seed: int) -> list[dict]:
     cases = [{"spec_i": i, "seed": seed, "nsched": k} for i in range(n)]
     for i in range(80 if tier == "quick" else 1000):
         cases.append({"kind": "race", "spec_i": i, "seed": seed})
+    for sp in range(4):
+        for nth in range(2):
+            cases.append({"kind": "pair", "spec": sp, "nth": nth, "seed": seed, "sample": 120 if tier == "quick" else 1500})
     return cases
 
 
@@ -160,9 +164,87 @@ def _race(case: dict) -> dict:
     return {"violations": v[:10], "obs": dict(obs), "keys": sorted("race:" + x for x in k)}
 
 
+PAIR_SPECS = [lambda: specs.jump_from_sibling(1), lambda: specs.jump_from_sibling(2), lambda: specs.jump_side_branch(1), lambda: specs.jump_fanin_off_body(1)]
+
+
+def _pair(case: dict) -> dict:
+    """A StartStage handler and a JumpToStage handler (whose re-arm set contains that stage or its
+    upstreams) as the two designated invocations, every schedule with <= 2 preemptions (sampled): the
+    stage may be started on a view of its upstreams that the jump invalidates in between."""
+    import os
+
+    from .. import interleave as il
+    from ..world import World
+
+    spec = PAIR_SPECS[case["spec"]]()
+    w = World()
+    cut = None
+    try:
+        w.submit(spec)
+        seen = 0
+        for _ in range(300):
+            rows = w.rows()
+            if not rows:
+                break
+            jumps = [r for r in rows if r["type"] == "JumpToStage"]
+            starts = [r for r in rows if r["type"] == "StartStage"]
+            if jumps and starts:
+                if seen == case["nth"]:
+                    path = os.path.join(il.env.scratch_dir(), f"cut-{os.getpid()}-{random.randrange(1 << 40)}.db")
+                    w.store._get_connection().commit()
+                    w.copy_db(path)
+                    cut = (path, [starts[0]["id"], jumps[0]["id"]])
+                    break
+                seen += 1
+            ready = [r for r in w.eligible(rows) if r["type"] != "JumpToStage"] or w.eligible(rows)
+            if not ready:
+                break
+            # keep StartStage messages pending as long as something else can move
+            other = [r for r in ready if r["type"] != "StartStage"]
+            w.deliver((other or ready)[0]["id"])
+    finally:
+        w.close()
+    obs: Counter = Counter()
+    keys: set = set()
+    violations = []
+    if cut is None:
+        return {"violations": [], "obs": {"cut_point_not_reached": 1}, "keys": []}
+    db, rows = cut
+    try:
+        na, nb = il.solo_length(db, rows[0]), il.solo_length(db, rows[1])
+        rng = random.Random(case["seed"] * 61 + case["spec"] * 7 + case["nth"])
+        for sc in il.bound_schedules(na, nb, 2, sample=case["sample"], rng=rng):
+            run, info = il.run_pair(db, rows, il.Segments(sc), max_steps=300)
+            obs["evaluations"] += 1
+            if run is None:
+                obs["scheduler_watchdog"] += 1
+                continue
+            run.injected = []
+            if info["switches"]:
+                obs["start_x_jump_schedules_with_switch"] += 1
+                keys.add(f"pair:{spec['name']}:{info['trace_hash']}")
+            v, o, _ = start_oracle(spec, run)
+            v = oracles.attribute(v, run, "C03")
+            obs.update(o)
+            for x in v:
+                x.update(pair="StartStage x JumpToStage", schedule=sc)
+            violations += v
+    finally:
+        os.unlink(db)
+    seen_s = set()
+    uniq = []
+    for x in violations:
+        if x["sig"] not in seen_s:
+            seen_s.add(x["sig"])
+            uniq.append(x)
+    return {"violations": uniq, "obs": dict(obs), "keys": sorted(keys)}
+
+
 def run_case(case: dict) -> dict:
     if case.get("kind") == "race":
         return _race(case)
+    if case.get("kind") == "pair":
+        return _pair(case)
     spec = _spec_for(case["spec_i"], case["seed"])
     rng = random.Random(case["seed"] * 31 + case["spec_i"])
     obs: Counter = Counter()
